@@ -1024,6 +1024,296 @@ class Scale:
         return "c08-result-file-partial-readable:%s" % self.position(w, k).split(",")[0]
 
 
+# ------------------------------------------------------------------ deaths by unwinding
+# The sweep above kills at system calls (what SIGKILL / a power cut does).  Processes usually die differently: an
+# exception that is not an Exception travels up the stack (KeyboardInterrupt from SIGINT, SystemExit from a SIGTERM
+# handler), an exception nobody catches, a signal with its default action; all but the last run handlers, __exit__
+# methods and finally blocks, in the main process AND, with several workers, in the processes it started, which may
+# go on writing after the main process is gone.  Every case below is one REAL run of the workload in a process group
+# of its own (props/c08_driver.py interrupted) that dies at a chosen position; what is left when the group has come
+# to rest is classified by the same recovery as every crash state, and abstracted to a model state for which Coq
+# decides whether some crash point of the uninterrupted run leaves it too (c08_unwound, theorem C08_unwound_as_crash).
+U_LABEL = ["error", "OTHER", "old", "new", "old=new"]
+U_RAISING = ["KeyboardInterrupt", "SystemExit", "OSError", "SIGINT", "SIGTERM-exit"]     # die by unwinding, main process only
+U_CALL_QUICK = ["create", "overwrite", "build_first", "rebuild_edges", "corrfunc_over", "corrdata_over"]
+U_CALL_MORE = ["metadata", "rebuild_closed", "rebuild_forced", "corrfunc_fresh", "corrdata_fresh", "p00_CorrData", "p07_CorrFunc"]
+U_GRACE = 1.5        # seconds the processes the dead main process left behind get to finish on their own
+U_PARALLEL = 10
+
+
+def pgroup_alive(pgid):
+    """pids of the live (not zombie) processes of a process group"""
+    out = []
+    for p in os.listdir("/proc"):
+        if not p.isdigit():
+            continue
+        try:
+            with open("/proc/%s/stat" % p) as fh:
+                s = fh.read()
+        except OSError:
+            continue
+        rest = s[s.rindex(")") + 2:].split()
+        if int(rest[2]) == pgid and rest[0] != "Z":
+            out.append(int(p))
+    return out
+
+
+def run_interrupted(S, j, u):
+    """one run of workload u["w"] that dies at u["hook"] position u["at"] in the way u["mode"] (u["at"] = 0 with the
+    call hook: nothing happens, the calls are counted).  Fills in rc, status, orphans, hung, state (what is left)."""
+    import signal
+    w = u["w"]
+    base = S.p("unw", "r%03d" % j)
+    dst = os.path.join(base, "wl", w["name"])
+    os.makedirs(dst)
+    prior = S.p("wl", w["name"], "prior")
+    if os.path.isdir(prior):
+        shutil.copytree(prior, os.path.join(dst, "live"))
+    item = [it for it in S.driver_spec(base, None)["workloads"] if it["name"] == w["name"]][0]
+    item.update(workers=u["workers"], mode=u["mode"], hook=u["hook"], at=u["at"], status=os.path.join(base, "status"))
+    with open(os.path.join(base, "spec.json"), "w") as fh:
+        json.dump(item, fh)
+    env = S.W.env()
+    env.pop("YAW_NUM_THREADS", None)          # the driver sets it to the number of workers of the run
+    with open(os.path.join(base, "stderr"), "wb") as errf:
+        p = subprocess.Popen(["/venv/bin/python", drv.__file__, "interrupted", os.path.join(base, "spec.json")], env=env,
+                             stdin=subprocess.DEVNULL, stdout=subprocess.DEVNULL, stderr=errf, start_new_session=True)
+        u["hung"] = False
+        try:
+            p.wait(timeout=u.get("timeout", 90))
+        except subprocess.TimeoutExpired:
+            u["hung"] = True                  # e.g. a pool that never comes back after ctrl-c: the user kills the job
+    t_end = time.time() + (0 if u["hung"] else U_GRACE)
+    left = pgroup_alive(p.pid)
+    while left and time.time() < t_end:
+        time.sleep(0.05)
+        left = pgroup_alive(p.pid)
+    if left:
+        try:
+            os.killpg(p.pid, signal.SIGKILL)
+        except ProcessLookupError:
+            pass
+    p.wait()
+    while pgroup_alive(p.pid):
+        time.sleep(0.02)
+    u["rc"], u["orphans"] = p.returncode, len([x for x in left if x != p.pid])
+    try:
+        with open(os.path.join(base, "status")) as fh:
+            u["status"] = fh.read().split("\n")
+    except OSError:
+        u["status"] = []
+    with open(os.path.join(base, "stderr"), "rb") as fh:
+        u["stderr"] = fh.read()[-600:].decode("utf-8", "replace")
+    live = os.path.join(base, "wl", w["name"], "live")
+    u["state"] = rp.DirState.load(live)
+    u["fired"], u["completed"] = "fired" in u["status"], "completed" in u["status"]
+    u["calls"] = next((int(x.split()[1]) for x in u["status"] if x.startswith("calls ")), None)
+    u["workers_real"] = next((int(x.split()[1]) for x in u["status"] if x.startswith("workers ")), None)
+    shutil.rmtree(base, ignore_errors=True)
+    return u
+
+
+def unwound_plan(ctx, S):
+    """the runs of one scale.  Reader positions (catalog creation / overwrite): the process dies when the k-th chunk
+    is requested from the data source, k = 1 .. number of chunks, sequentially and with 2 and 3 worker processes
+    (the multiprocessing path with the dedicated writer process), in every way of U_RAISING (quick: the ways are
+    dealt round-robin over (workload, workers, position), so that every worker count meets every way; thorough: all),
+    plus SIGTERM with the default action and SIGINT to the whole process group.  Call positions: the process dies at
+    the k-th call of a python function of the package (k drawn from 1 .. the number counted in an uninterrupted run),
+    for creation, tree building and result files, sequentially (thorough: tree building with 2 workers as well)."""
+    rng, quick = ctx.rng, ctx.quick()
+    by_name = {w["name"]: w for w in S.wl}
+    plan = []
+
+    def add(w, workers, mode, hook, at, chk, **kw):
+        plan.append(dict(w=w, workers=workers, mode=mode, hook=hook, at=at, chk=chk, **kw))
+
+    modes = list(U_RAISING)
+    rng.shuffle(modes)
+    i = 0
+    for workers in (1, 2, 3):
+        for name in ("create", "overwrite"):
+            w = by_name.get(name)
+            if w is None:
+                continue
+            ds = w["new_ds"]
+            nrec = sum(len(ids) for _, ids in S.ab.pieces[ds])
+            nchunks = -(-nrec // drv.chunksize(ds, S.scale))
+            w["nchunks"] = nchunks
+            for at in range(1, nchunks + 1):
+                for mode in ([modes[i % len(modes)]] if quick else modes):
+                    # unwinding in the main process: everything handed over before the interrupt is written, nothing
+                    # after it: the state at a chunk boundary, whatever the number of workers
+                    add(w, workers, mode, "reader", at, True)
+                i += 1
+    for name, workers in ([("create", 2), ("overwrite", 1)] if quick else [(n, k) for n in ("create", "overwrite") for k in (1, 2, 3)]):
+        w = by_name.get(name)
+        if w is not None:
+            # no unwinding: with workers the orphaned writer process stops wherever it is when the group is killed
+            add(w, workers, "SIGTERM-default", "reader", rng.randint(1, w["nchunks"]), workers == 1)
+    if not quick:
+        for name, workers in (("create", 1), ("create", 2), ("overwrite", 2), ("overwrite", 3)):
+            w = by_name.get(name)
+            if w is not None:
+                # ctrl-c: every process of the job is interrupted wherever it is (a pool may never come back: the job
+                # is killed after the timeout, as its user would)
+                add(w, workers, "SIGINT-group", "reader", rng.randint(1, w["nchunks"]), workers == 1, timeout=12)
+    calls = [by_name[n] for n in (U_CALL_QUICK if quick else U_CALL_QUICK + U_CALL_MORE) if n in by_name]
+    return plan, calls
+
+
+class Unwound:
+    """the interrupted runs of scale S.  start(): the plan is drawn (all random choices happen here, from ctx.rng) and
+    the runs begin in the background: they are processes of their own and only read the prior states of the workloads,
+    so they run WHILE the crash points of the same scale are swept.  finish(): the left-over directories are
+    classified by the recovery worker (which still holds the fixed catalogs of this scale) and abstracted."""
+
+    def __init__(self, ctx, S):
+        import random
+        self.ctx, self.S = ctx, S
+        self.plan, self.calls = unwound_plan(ctx, S)
+        self.rng = random.Random(ctx.rng.getrandbits(64))
+        self.t0 = time.time()
+        self.ex = ThreadPoolExecutor(max_workers=1)
+        self.fut = self.ex.submit(self.runs)
+
+    def runs(self):
+        S, rng, quick = self.S, self.rng, self.ctx.quick()
+        # uninterrupted runs with the call hook: how many positions are there?
+        counts = [dict(w=w, workers=1, mode="KeyboardInterrupt", hook="call", at=0, chk=True) for w in self.calls]
+        with ThreadPoolExecutor(max_workers=U_PARALLEL) as ex:
+            fut_cnt = [ex.submit(run_interrupted, S, 500 + j, u) for j, u in enumerate(counts)]
+            fut_plan = [ex.submit(run_interrupted, S, j, u) for j, u in enumerate(self.plan)]
+            counts = [f.result() for f in fut_cnt]
+            second = []
+            call_modes = ["KeyboardInterrupt", "SystemExit", "SIGINT", "SIGTERM-exit"]
+            rng.shuffle(call_modes)
+            i = 0
+            for c in counts:
+                # (nothing here may talk to the recovery worker: the main thread is using it)
+                fin = c["w"]["final_state"]
+                c["ok"] = bool(c["completed"] and c["calls"] and set(c["state"].files) == set(fin.files) and c["state"].dirs == fin.dirs)
+                if not c["ok"]:
+                    continue
+                c["w"]["ncalls"] = c["calls"]
+                for at in sorted(set(rng.randint(1, c["calls"]) for _ in range(2 if quick else 10))):
+                    second.append(dict(w=c["w"], workers=1, mode=call_modes[i % len(call_modes)], hook="call", at=at, chk=True))
+                    i += 1
+                if not quick and c["w"]["kind"] == "build":
+                    for at in sorted(set(rng.randint(1, c["calls"]) for _ in range(3))):
+                        # trees built by pool processes that are terminated wherever they are: per patch a crash state
+                        second.append(dict(w=c["w"], workers=2, mode=call_modes[i % len(call_modes)], hook="call", at=at, chk=False))
+                        i += 1
+            fut_second = [ex.submit(run_interrupted, S, 600 + j, u) for j, u in enumerate(second)]
+            done = [f.result() for f in fut_plan] + [f.result() for f in fut_second]
+        shutil.rmtree(S.p("unw"), ignore_errors=True)
+        return counts, done, time.time()
+
+    def finish(self):
+        """-> list of interrupted-run cases (classified, with the abstract left-over state)"""
+        ctx, S = self.ctx, self.S
+        t_wait = time.time()
+        counts, done, t_runs = self.fut.result()
+        self.ex.shutdown()
+        t1 = time.time()
+        for c in counts:
+            ab = S.ab_for(c["w"])
+            c["ok"] = c["ok"] and ab.state(c["state"]) == ab.state(c["w"]["final_state"])
+            ctx.obligation("unwound-selfcheck:%s/%s (an uninterrupted run of the driver with the call hook leaves the final "
+                           "directory of the traced run; %s calls)" % (S.tag, c["w"]["name"], c["calls"]), c["ok"],
+                           json.dumps(dict(rc=c["rc"], status=c["status"], stderr=c["stderr"])))
+        ucases = []
+        for u in done:
+            w = u["w"]
+            u["lterm"] = S.ab_for(w).state(u["state"])
+            for req in (w["requests"] or [DEFAULT_REQ]):
+                cls, det = S.classify(w, u["state"], req)
+                c = dict(u, idx="u%s%d" % (S.tag, len(ucases)), scale=S.tag, S=S, req=req, cls=cls, det=det)
+                ucases.append(c)
+                died = u["fired"] and not u["completed"]
+                ctx.count(key=(S.tag, "unwound", w["name"], u["hook"], u["at"], u["mode"], u["workers"], req), nontrivial=died,
+                          kind="unwound:%s:%s:%s:workers=%d:%s" % (w["name"], u["hook"], u["mode"], u["workers"], U_LABEL[cls]))
+            ctx.bump("unwound-run:%s" % ("hung, killed" if u["hung"] else "not interrupted" if not u["fired"] else
+                                         "completed all the same" if u["completed"] else
+                                         "died, %s" % ("processes left behind" if u["orphans"] else "no process left behind")))
+            if u["workers_real"] is not None and u["workers_real"] != u["workers"]:
+                ctx.bump("unwound-run:fewer workers than asked for (machine too small)")
+        ctx.log("scale %s: %d interrupted runs (+%d counting runs) took %.1fs in the background (waited %.1fs for them), %d cases classified in %.1fs"
+                % (S.tag, len(done), len(counts), t_runs - self.t0, t1 - t_wait, len(ucases), time.time() - t1))
+        ctx.extra.setdefault("unwound", {})[S.tag] = dict(
+            runs=len(done), cases=len(ucases), calls_per_workload={c["w"]["name"]: c["calls"] for c in counts},
+            died=sum(1 for u in done if u["fired"] and not u["completed"]), hung=sum(1 for u in done if u["hung"]),
+            left_processes_behind=sum(1 for u in done if u["orphans"]),
+            exit_statuses=sorted({str(u["rc"]) for u in done}))
+        return ucases
+
+
+def unwound_signature(c):
+    w, st = c["w"], c["state"]
+    how = "unwinding" if c["mode"] in U_RAISING else "signal-to-every-process" if c["mode"] == "SIGINT-group" else "signal-default-action"
+    nw = "sequential" if c["workers"] == 1 else "worker-processes"
+    kind = w["kind"]
+    if kind in ("create", "overwrite"):
+        fin = w["final_state"].files
+        part = [f for f in fin if os.path.basename(f) == "data.bin" and st.files.get(f) != fin[f]]
+        if "patch_ids.bin" in st.files and (part or st.files["patch_ids.bin"] != fin.get("patch_ids.bin")):
+            # the completeness marker was written although the input had not been read to its end
+            return "c08-%s-interrupted-by-%s-%s:patch-ids-written-for-partial-data" % (kind, how, nw)
+        return "c08-%s-interrupted-by-%s-%s:partial-catalog-opens" % (kind, how, nw)
+    if kind == "build":
+        return "c08-trees-interrupted-by-%s-%s:other-trees-used" % (how, nw)
+    if kind == "metadata":
+        return "c08-metadata-interrupted-by-%s-%s:partial" % (how, nw)
+    what = w["spec"]["shape"]["what"] if kind == "product" else kind
+    return "c08-result-interrupted-by-%s:%s-partial-readable" % (how, what)
+
+
+def unwound_compare(ctx, header, ucases):
+    terms = []
+    for c in ucases:
+        for fixed in ("false", "true"):
+            terms.append("c08_unwound %s %s %s %d %d %s" % (fixed, c["w"]["coq_name"], c["lterm"], TAG.get(c["req"], 0), c["cls"],
+                                                           "true" if c["chk"] else "false"))
+    t0 = time.time()
+    codes = ctx.shards("Unwound_C08", header, terms, shard=400)
+    ctx.log("interrupted runs: %d terms evaluated in Coq in %.1fs (at the same time as the crash points)" % (len(terms), time.time() - t0))
+    for n, c in enumerate(ucases):
+        c["code"] = {False: codes[2 * n], True: codes[2 * n + 1]}
+
+
+def unwound_verdicts(ctx, ucases):
+    for c in ucases:
+        w, S = c["w"], c["S"]
+        code = c["code"][w.get("variant", False)]
+        where = ("%d-th request for a chunk of the input (of %d)" % (c["at"], w.get("nchunks", 0)) if c["hook"] == "reader"
+                 else "%d-th call of a function of the package (of %s)" % (c["at"], w.get("ncalls")))
+        info = dict(scale=S.tag, scale_params=S.scale, workload=w["name"], kind=w["kind"], workers=c["workers"], mode=c["mode"],
+                    hook=c["hook"], at=c["at"], request=c["req"], exit_status=c["rc"], hung=c["hung"], processes_left_behind=c["orphans"],
+                    left_on_disk={f: len(b) for f, b in sorted(c["state"].files.items())}, detail=c["det"],
+                    driver="harness/props/c08_driver.py interrupted <spec> (spec = workload item + workers, mode, hook, at)")
+        if c["cls"] == 1:
+            prior = "nothing" if w["prior_ds"] is None else "dataset %s%s" % (w["prior_ds"], "" if w["kind"] != "build" else " + its tree cache")
+            what = ("workload %s (scale %s, prior state: %s) run with %d worker process(es); the process dies by %s at the %s "
+                    "(exit status %s); the directory it leaves (%s) is then used: recovery succeeds with a result that is "
+                    "neither the old nor the new state: %s"
+                    % (w["name"], S.tag, prior, c["workers"], c["mode"], where, c["rc"],
+                       ", ".join("%s: %d bytes" % kv for kv in info["left_on_disk"].items()) or "empty", json.dumps(c["det"])))
+            ctx.fail(unwound_signature(c), what, info, case=c["idx"])
+            ctx.sample({"interrupted_run": (S.tag, w["name"], c["workers"], c["mode"], c["hook"], c["at"]), "detail": c["det"]}, limit=4)
+        if code is None or code & 1:
+            ctx.disagree("Unwound_C08", c["idx"], dict(info, note="the model's recovery of the abstracted left-over state gives another class "
+                                                       "than the real recovery", impl_class=c["cls"], state=c["lterm"][:2000]))
+        elif code & 4:
+            ctx.disagree("Unwound_C08", c["idx"], dict(info, note="the state the interrupted run left is not the state after any prefix of "
+                                                       "the operation list of the uninterrupted run (handlers / other processes wrote on)",
+                                                       impl_class=c["cls"], state=c["lterm"][:2000]))
+    for c in ucases:
+        if c["fired"] and not c["completed"] and c["workers"] > 1 and c["hook"] == "reader":
+            ctx.sample({"interrupted_run": (c["scale"], c["w"]["name"], "workers=%d" % c["workers"], c["mode"], "chunk %d" % c["at"]),
+                        "exit_status": c["rc"], "left_on_disk": sorted(c["state"].files), "class": U_LABEL[c["cls"]]}, limit=5)
+            break
+
+
 # ------------------------------------------------------------------ run
 def sweep(ctx, S, cases):
     """all prefixes of all workloads of scale S; appends case dicts"""
@@ -1044,7 +1334,7 @@ def sweep(ctx, S, cases):
         ctx.log("scale %s %-22s %3d ops, %d crash points x %d requests  (%.1fs)" % (S.tag, w["name"], n, n + 1, len(reqs), time.time() - t0))
 
 
-def coq_compare(ctx, scales, cases):
+def coq_compare(ctx, scales, cases, ucases=()):
     # (i) op-list conformance and hypotheses, per workload, against both model variants
     wterms, wl_index = [], []
     for S in scales:
@@ -1078,10 +1368,15 @@ def coq_compare(ctx, scales, cases):
         req = TAG.get(c["req"], 0)
         for fixed in ("false", "true"):
             terms.append("c08_case %s %s %d %d %d" % (fixed, c["w"]["coq_name"], c["k"], req, c["cls"]))
-    codes = ctx.shards("Cases_C08", header, terms, shard=400)
+    # (iii) interrupted runs: compiled at the same time as the crash points
+    with ThreadPoolExecutor(max_workers=1) as ex:
+        fut = ex.submit(unwound_compare, ctx, header, ucases) if ucases else None
+        codes = ctx.shards("Cases_C08", header, terms, shard=400)
+        if fut is not None:
+            fut.result()
     for n, c in enumerate(cases):
         c["code"] = {False: codes[2 * n], True: codes[2 * n + 1]}
-    return wl_index
+    return wl_index, header
 
 
 def verdicts(ctx, wl_index, cases):
@@ -1096,6 +1391,7 @@ def verdicts(ctx, wl_index, cases):
             n_bad = sum(1 for c in cs if c["code"][fixed] is None or c["code"][fixed] & 1)
             bad[fixed] = n_bad + (0 if w["ops_ok"][fixed] else 1000)
         fixed = False if bad[False] <= bad[True] else True
+        w["variant"] = fixed
         variants["%s/%s" % (S.tag, w["name"])] = ("repaired" if fixed else "pinned") + ("" if bad[fixed] == 0 else " (disagrees: %d)" % bad[fixed])
         # property failures first (they explain disagreements of the same case)
         for c in cs:
@@ -1240,7 +1536,7 @@ def sigkill_crosscheck(ctx, S, n_runs, key="sigkill_crosscheck"):
 
 def run(ctx):
     W = Worker(ctx)
-    scales, cases = [], []
+    scales, cases, ucases = [], [], []
     try:
         tags = ["s", "x"] if ctx.quick() else ["s", "m", "l", "x"]
         params = dict(SCALES, x=big_scale(ctx.rng))
@@ -1252,12 +1548,19 @@ def run(ctx):
             ctx.log("scale %s: fixed catalogs, fresh references and %d prior states prepared (%.1fs)" % (tag, len(S.wl), time.time() - t0))
             S.trace_all()
             scales.append(S)
+            # deaths by unwinding: real interrupted runs, in the background while the crash points are swept; classified
+            # afterwards, while the recovery worker still holds the fixed catalogs of this scale
+            U = Unwound(ctx, S) if tag in (("s",) if ctx.quick() else ("s", "m")) else None
             sweep(ctx, S, cases)
-        wl_index = coq_compare(ctx, scales, cases)
+            if U is not None:
+                ucases += U.finish()
+        wl_index, header = coq_compare(ctx, scales, cases, ucases)
         verdicts(ctx, wl_index, cases)
+        unwound_verdicts(ctx, ucases)
         probes(ctx, scales, cases)
         buffering_evidence(ctx, scales)
         ctx.extra["crash_points"] = len(cases)
+        ctx.extra["interrupted_runs_classified"] = len(ucases)
         ctx.extra["worker_restarts"] = W.restarts
         for w in scales[0].wl:
             if w["name"] == "rebuild_edges":
